@@ -98,10 +98,13 @@ fn cmd_check(args: &[String]) -> i32 {
     let jobs = env_u64("VERIF_JOBS", 16) as usize;
     let (q, t) = run_counts(&property);
     let thorough = tier == "thorough";
-    let max_runs = env_u64("VERIF_RUNS", if thorough { t } else { q });
+    // the secondary build configuration runs a fraction of the default count
+    let frac = env_u64("VERIF_RUN_FRACTION", 1).max(1);
+    let max_runs = env_u64("VERIF_RUNS", (if thorough { t } else { q }) / frac);
     let budget_s = env_u64("VERIF_BUDGET_S", if thorough { 600 } else { 100_000 }) as f64;
     let verif_dir = std::env::var("VERIF_DIR").unwrap_or_else(|_| "/verif".into());
-    println!("mlsim check {property} tier={tier} VERIF_SEED={seed} runs<={max_runs} budget={budget_s}s jobs={jobs}");
+    let secondary = std::env::var("VERIF_SECONDARY").is_ok();
+    println!("mlsim check {property} tier={tier} VERIF_SEED={seed} runs<={max_runs} budget={budget_s}s jobs={jobs} build={BUILD}");
     // the reference model must agree with the vectors shipped in the repository before it judges the library
     let sc = selfcheck::run();
     if !sc.errors.is_empty() {
@@ -129,7 +132,7 @@ fn cmd_check(args: &[String]) -> i32 {
     }
     // known findings
     let known = known::load();
-    for k in known.known.iter().filter(|k| k.property == property) {
+    for k in known.known.iter().filter(|k| k.property == property && !secondary) {
         let hits = agg.known.get(&k.signature).copied().unwrap_or(0);
         println!("KNOWN-FINDING: property={} {} [signature {} seen {} times in this run]", k.property, k.what, k.signature, hits);
     }
@@ -148,6 +151,7 @@ fn cmd_check(args: &[String]) -> i32 {
             actions: min_trace,
             violation: Some(min_v.clone()),
             note: format!("found by `mlsim check {property} --tier {tier}` with VERIF_SEED={seed}, run {i}"),
+            build: BUILD.to_string(),
         };
         match write_replay(&format!("{verif_dir}/replays"), &rf) {
             Ok(path) => {
@@ -213,13 +217,18 @@ fn cmd_check(args: &[String]) -> i32 {
                 "simulated": ["delivery service", "clock", "randomness (deterministic mode)", "fault-injecting wrappers round storage / identity / rules traits", "crash and restart"],
             },
         },
+        "build": BUILD,
         "assumptions": [
             "sampled histories, not exhaustive; seeds listed make every run repeatable",
             "deterministic-crypto runs use RustCrypto with key generation from the run PRNG",
         ],
     });
     let _ = std::fs::create_dir_all(format!("{verif_dir}/evidence"));
-    let path = format!("{verif_dir}/evidence/{property}.json");
+    let path = if secondary {
+        format!("{verif_dir}/evidence/{property}.secondary.json")
+    } else {
+        format!("{verif_dir}/evidence/{property}.json")
+    };
     if let Err(e) = std::fs::write(&path, serde_json::to_vec_pretty(&ev).unwrap()) {
         eprintln!("HARNESS-ERROR: cannot write evidence {path}: {e}");
         return 2;
@@ -237,6 +246,10 @@ fn cmd_replay(args: &[String]) -> i32 {
     match replay_file(path) {
         Err(e) => {
             eprintln!("HARNESS-ERROR: {e}");
+            2
+        }
+        Ok((rf, _)) if !rf.build.is_empty() && rf.build != BUILD => {
+            eprintln!("HARNESS-ERROR: {path} was recorded by the `{}` build of the simulator, this is the `{BUILD}` build (./check picks the right one)", rf.build);
             2
         }
         Ok((rf, out)) => {
